@@ -15,6 +15,7 @@ import (
 	"sync"
 
 	"google.golang.org/genproto/googleapis/api/annotations"
+	"google.golang.org/genproto/googleapis/api/serviceconfig"
 	"google.golang.org/grpc"
 	"google.golang.org/grpc/codes"
 	"google.golang.org/grpc/metadata"
@@ -46,6 +47,37 @@ type RuleSpec struct {
 	Tmpl   string `json:"tmpl"`
 	Body   string `json:"body,omitempty"`
 	Resp   string `json:"resp,omitempty"`
+	// Via "config": the rule reaches the mux through ServiceConfigOption
+	// (selector = the method's full name) instead of the proto annotation.
+	// Ann, if set, is the google.api.http annotation the method carries
+	// besides: with an empty Tmpl it re-declares the config rule's own verb
+	// and template with another body / response_body (the service
+	// configuration overrides the annotation).
+	Via string   `json:"via,omitempty"`
+	Ann *annSpec `json:"ann,omitempty"`
+}
+
+type annSpec struct {
+	Verb string `json:"verb,omitempty"`
+	Tmpl string `json:"tmpl,omitempty"`
+	Body string `json:"body,omitempty"`
+	Resp string `json:"resp,omitempty"`
+}
+
+// annotation is the google.api.http annotation of the rule's method (nil for
+// a config-only method).
+func (r RuleSpec) annotation() *annotations.HttpRule {
+	if r.Via != "config" {
+		return r.httpRule()
+	}
+	if r.Ann == nil {
+		return nil
+	}
+	a := RuleSpec{Verb: r.Ann.Verb, Tmpl: r.Ann.Tmpl, Body: r.Ann.Body, Resp: r.Ann.Resp}
+	if a.Tmpl == "" {
+		a.Verb, a.Tmpl = r.Verb, r.Tmpl
+	}
+	return a.httpRule()
 }
 
 func (r RuleSpec) isWebsocket() bool { return strings.EqualFold(r.Verb, "websocket") }
@@ -351,19 +383,25 @@ func buildDynamic(rules []RuleSpec, kind string) (*env, error) {
 		rule string
 	}
 	var owners []own
+	var cfgRules []*annotations.HttpRule
 	for i, r := range rules {
 		if r.Svc != "" {
 			return nil, fmt.Errorf("buildDynamic: rule %s belongs to %s", r.ID, r.Svc)
 		}
-		m := vschema.Method{Name: fmt.Sprintf("Me%d", i), In: r.In, Out: r.Out, Rule: r.httpRule()}
+		m := vschema.Method{Name: fmt.Sprintf("Me%d", i), In: r.In, Out: r.Out, Rule: r.annotation()}
 		if r.isWebsocket() {
 			m.CS, m.SS = true, true // websocket bindings live on bidi methods
 		}
-		if r.Resp == "" {
+		if r.Resp == "" && r.Via != "config" {
 			main.Methods = append(main.Methods, m)
 			continue
 		}
 		name := fmt.Sprintf("Rb%d", i)
+		if r.Via == "config" {
+			hr := r.httpRule()
+			hr.Selector = fmt.Sprintf("%s.%s.%s", f.Pkg, name, m.Name)
+			cfgRules = append(cfgRules, hr)
+		}
 		f.Services = append(f.Services, vschema.Service{Name: name, Methods: []vschema.Method{m}})
 		owners = append(owners, own{name, r.ID})
 	}
@@ -379,7 +417,11 @@ func buildDynamic(rules []RuleSpec, kind string) (*env, error) {
 	if err != nil {
 		return nil, err
 	}
-	mux, err := larking.NewMux(append([]larking.MuxOption{larking.FilesOption(reg)}, muxOptions(kind)...)...)
+	opts := append([]larking.MuxOption{larking.FilesOption(reg)}, muxOptions(kind)...)
+	if len(cfgRules) > 0 {
+		opts = append(opts, larking.ServiceConfigOption(&serviceconfig.Service{Http: &annotations.Http{Rules: cfgRules}}))
+	}
+	mux, err := larking.NewMux(opts...)
 	if err != nil {
 		return nil, err
 	}
@@ -459,11 +501,31 @@ const (
 
 var builtinTypes = []string{"application/json", "application/octet-stream", "application/protobuf"}
 
+// muxReplaced is a mux whose application/json and application/protobuf codecs
+// are REPLACED by the marked codecs (application/octet-stream keeps the
+// built-in one).
+const muxReplaced = "replaced-codecs"
+
 func muxOptions(kind string) []larking.MuxOption {
-	if kind == muxCustom {
+	switch kind {
+	case muxCustom:
 		return []larking.MuxOption{larking.CodecOption(ctAltJSON, altJSONCodec{}), larking.CodecOption(ctAltProto, altProtoCodec{})}
+	case muxReplaced:
+		return []larking.MuxOption{larking.CodecOption("application/json", altJSONCodec{}), larking.CodecOption("application/protobuf", altProtoCodec{})}
 	}
 	return nil
+}
+
+// markOf returns the magic prefix the codec registered for ct on a mux of the
+// given kind puts in front of its output ("" for the built-in codecs).
+func markOf(kind, ct string) string {
+	switch {
+	case kind == muxCustom && ct == ctAltJSON, kind == muxReplaced && ct == "application/json":
+		return altJSONMagic
+	case kind == muxCustom && ct == ctAltProto, kind == muxReplaced && ct == "application/protobuf":
+		return altProtoMagic
+	}
+	return ""
 }
 
 // mediaTypes are the media types with a registered codec, sorted.
@@ -534,6 +596,12 @@ func altProtoDecode(data []byte, m proto.Message) error {
 // harness's own decoders). known is false when no codec of a mux of the
 // given kind has that name.
 func decodeBy(kind, ct string, payload []byte, m proto.Message) (codec string, known bool, err error) {
+	switch markOf(kind, ct) {
+	case altJSONMagic:
+		return "marked-json", true, altJSONDecode(payload, m)
+	case altProtoMagic:
+		return "marked-proto", true, altProtoDecode(payload, m)
+	}
 	switch ct {
 	case "application/json":
 		return "json", true, protojson.Unmarshal(payload, m)
@@ -610,6 +678,15 @@ func requestRules() (dynamic []RuleSpec, real []RuleSpec) {
 		vfRule("vf:var-literal-two-segments+body-sub", "POST", "/pv/{sub.a=one/two}", "sub"),
 		vfRule("vf:var-literal-typed+body-star", "POST", "/pw/{f=true}/{e=RED}/{b=const}", "*"),
 		cxRule("cx:var-literal-nested", "GET", "/cl/{nested.string_value=books}/{string_value}", ""),
+		// rules delivered through ServiceConfigOption: on a route of their own,
+		// and re-declaring the annotated route with another body mapping
+		{ID: "vf:config-own-route", In: "vf.Req", Out: "vf.Rsp", Verb: "GET", Tmpl: "/k1/{a}/{sub.b}", Via: "config"},
+		{ID: "vf:config-own-route+annotated-elsewhere", In: "vf.Req", Out: "vf.Rsp", Verb: "POST", Tmpl: "/k2/{a}", Body: "sub", Via: "config",
+			Ann: &annSpec{Verb: "POST", Tmpl: "/k2ann/{b}", Body: "*"}},
+		{ID: "vf:config-overrides-annotation-body", In: "vf.Req", Out: "vf.Rsp", Verb: "POST", Tmpl: "/k3/{a}", Body: "sub", Via: "config", Ann: &annSpec{Body: "*"}},
+		{ID: "vf:config-overrides-annotation-nobody", In: "vf.Req", Out: "vf.Rsp", Verb: "PUT", Tmpl: "/k4/{sub.a}", Body: "", Via: "config", Ann: &annSpec{Body: "*"}},
+		{ID: "cx:config-overrides-annotation-star", In: "larking.testpb.ComplexRequest", Out: "vf.Rsp", Verb: "PATCH", Tmpl: "/k5/{string_value}", Body: "*", Via: "config",
+			Ann: &annSpec{Body: "nested"}},
 		// typed and bytes variables on rules that also map a body
 		vfRule("vf:var-bytes+body-star", "POST", "/pm/{y}", "*"),
 		vfRule("vf:var-scalars+body-star", "POST", "/pq/{n}/{l}/{u}/{f}/{e}/{dbl}", "*"),
